@@ -22,10 +22,13 @@ def random_string(rng, maxlen=40, alphabet=ALPHABET):
 
 # ---- token-level generation: grammar-directed strings with noise -----------------
 
-SYMS = ['a', 'b', 'c', 'x', 'y-1', 'dog', 'bark-01', '-', '+', '1', '0.5', 'a,b', '^x', '#h', 'é', 'a\xa0b', '_', 'x.y']
-STRS = ['"s"', '""', '"a b"', '"(x)"', '"a\\"b"', '"~1"', '"a/b:c"', '"#"', '"\\\\"', '"x y"']
-ROLES = [':ARG0', ':ARG1', ':ARG0-of', ':op1', ':op2', ':op10', ':mod', ':', ':polarity', ':x-of-of', ':TOP', ':domain-of', ':quant']
-ALNS = ['~1', '~e.2', '~e.2,3', '~E.1', '~x7', '~0,0']
+SYMS = ['a', 'b', 'c', 'x', 'y-1', 'dog', 'bark-01', '-', '+', '1', '0.5', 'a,b', '^x', '#h', 'é', 'a\xa0b', '_', 'x.y',
+        '\u201cKim\u201d', '8,400', 'x^2']
+STRS = ['"s"', '""', '"a b"', '"(x)"', '"a\\"b"', '"~1"', '"a/b:c"', '"#"', '"\\\\"', '"x y"',
+        '"a \u201cb, c\u201d d"', '"t\tu"', '"x\\by\\fz"']
+ROLES = [':ARG0', ':ARG1', ':ARG0-of', ':op1', ':op2', ':op10', ':mod', ':', ':polarity', ':x-of-of', ':TOP', ':domain-of', ':quant',
+         ':instance', ':ARG0-OF', ':PART-Of', ':op01', ':op003']
+ALNS = ['~1', '~e.2', '~e.2,3', '~E.1', '~x7', '~0,0', '~\xe9.1', '~\xdf2']
 SPACERS = [' ', '  ', '\n', '\t', ' \n  ', '\r\n', '\v', '\f', '']
 
 
@@ -77,7 +80,8 @@ def random_penman_text(rng, depth=0, maxdepth=4, p_bad=0.08):
 
 def random_tree_node(rng, vars_pool, depth=0, maxdepth=4, wf=True, defined=None, roles=None, atoms=None):
     """A tree node (var, branches). With wf=True every nested node gets a fresh variable."""
-    roles = roles or [':ARG0', ':ARG1', ':ARG0-of', ':op1', ':op2', ':mod', ':polarity', ':quant', ':domain-of', ':ARG1-of']
+    roles = roles or [':ARG0', ':ARG1', ':ARG0-of', ':op1', ':op2', ':mod', ':polarity', ':quant', ':domain-of', ':ARG1-of',
+                      ':ARG2-OF', ':op02']
     atoms = atoms or ['x', 'y', '-', '"s t"', '"(~)"', '1', '2.5', 'dog']
     if defined is None:
         defined = []
@@ -111,6 +115,30 @@ def random_tree_node(rng, vars_pool, depth=0, maxdepth=4, wf=True, defined=None,
             tgt = None
         bs.append((role, tgt))
     return (var, bs)
+
+
+def forward_references(rng, node):
+    """Re-target some atomic branches at ANY variable of the tree, so that a reference (possibly through an inverted
+    role) can precede the definition of its node (random_tree_node alone only refers backwards)."""
+    allvars = []
+
+    def collect(n):
+        allvars.append(n[0])
+        for _, t in n[1]:
+            if isinstance(t, tuple):
+                collect(t)
+    collect(node)
+
+    def rebuild(n):
+        bs = []
+        for r, t in n[1]:
+            if isinstance(t, tuple):
+                t = rebuild(t)
+            elif r != '/' and rng.random() < .3:
+                t = rng.choice(allvars)
+            bs.append((r, t))
+        return (n[0], bs)
+    return rebuild(node)
 
 
 def fresh_vars(n=40):
